@@ -633,9 +633,6 @@ def edit_cases(draw, max_ops):
     caption = draw(st.text(st.sampled_from(alpha + ["\n", " "]), max_size=8))
     text = draw(st.text(textch, max_size=14))
     typed = alpha
-    if is_bytes and enc != "utf-8" and draw(st.integers(0, 7)) != 0:
-        # known finding C10-bytes-key-utf8 makes every non-ASCII key fail here: mostly keep to ASCII
-        typed = ASCII
     ops = draw(_ops(typed, max_ops))
     width = draw(st.integers(1, 20))
     if _has_special(caption + text + "".join(o[1] for o in ops if o[0] == "k" and len(o[1]) == 1)):
